@@ -157,6 +157,7 @@ class ClusterView:
         cur = {}             # watcher index -> thread under construction
         members = {}         # watcher index -> list of sub ids (model conts order)
         submode = {}
+        pubs, keylease, nlease = {}, {}, 7000
         for op, st in zip(case["ops"], obs["steps"]):
             name = op[0]
             if name == "put":
@@ -168,6 +169,41 @@ class ClusterView:
                     rev += 1
                     del store[op[1]]
                     muts.append((rev, "del", op[1], ""))
+            elif name in ("pub", "unpub", "expire", "ppause", "presume"):
+                # registrations made by the real Publisher: Grant numbers the leases 7001, 7002, ...; the key is
+                # <key>/<id>, or <key>/<lease> without WithId; a key belongs to the lease of its last Put; revoking
+                # or expiring a lease deletes the keys that still belong to it
+                def drop(lease):
+                    nonlocal rev
+                    for k in sorted(k for k, l in keylease.items() if l == lease):
+                        del keylease[k]
+                        if k in store:
+                            rev += 1
+                            del store[k]
+                            muts.append((rev, "del", k, ""))
+
+                def register(pid):
+                    nonlocal rev, nlease
+                    key, val, pubid = pubs[pid]["key"], pubs[pid]["val"], pubs[pid]["id"]
+                    nlease += 1
+                    pubs[pid]["lease"] = nlease
+                    full = "%s/%d" % (key, pubid or nlease)
+                    rev += 1
+                    store[full] = val
+                    keylease[full] = nlease
+                    muts.append((rev, "put", full, val))
+                if name == "pub":
+                    pubs[op[1]] = {"key": op[2], "val": op[3], "id": op[4]}
+                    register(op[1])
+                elif name == "unpub":
+                    drop(pubs.pop(op[1])["lease"])
+                elif name == "ppause":
+                    drop(pubs[op[1]]["lease"])
+                elif name == "presume":
+                    register(op[1])
+                else:
+                    drop(pubs[op[1]]["lease"])
+                    register(op[1])
             elif name == "pause":
                 paused = True
             elif name == "resume":
@@ -613,12 +649,13 @@ class C13(Property):
         watchers = [{"key": CL_WATCHERS[i][0], "exact": CL_WATCHERS[i][1]} for i in widx]
         nw = len(watchers)
         use_res = rng.random() < 0.3
+        use_pub = rng.random() < 0.4
         nv = rng.randint(1, 4)
         keys = CL_KEYS if rng.random() < 0.6 else CL_KEYS[:4]
         neps = 2 if rng.random() < 0.3 else 1          # endpoints of the etcd cluster; subscribers may list them in either order
         base = rng.choice([1, 1, 1, 2, 1 << 31, (1 << 40) + 7])   # revision of the empty store
         ops = []
-        spied, members, store = set(), {}, {}
+        spied, members, store, pubs = set(), {}, {}, set()
         st = {"sid": 0, "rev": base, "geterr": 1 if rng.random() < 0.15 else 0}
 
         def val(k):
@@ -687,6 +724,32 @@ class C13(Property):
             ops.append(["resume"])
             st["paused"] = False
 
+        def publish():
+            # registrations through the real discov.Publisher (KeepAlive / Stop; a lease that expires costs the
+            # Publisher's own 1 s tick: it shares the budget of the failing Get)
+            r = rng.random()
+            if pubs and r < 0.35:
+                pid = rng.choice(sorted(pubs))
+                pubs.remove(pid)
+                ops.append(["unpub", pid])
+            elif pubs and r < 0.45 and st["geterr"] and not st.get("paused"):
+                st["geterr"] -= 1
+                pid = rng.choice(sorted(pubs))
+                if rng.random() < 0.5:
+                    ops.append(["expire", pid])
+                else:
+                    ops.append(["ppause", pid])
+                    for _ in range(rng.randrange(3)):
+                        mut()
+                    ops.append(["presume", pid])
+            else:
+                key = rng.choice(["svc", "svc", "svc/a", "svcx"])
+                pid = st["pid"] = st.get("pid", 0) + 1
+                v = "v%d" % (200 + 10 * pid + rng.randrange(2)) if inj else "v%d" % rng.randrange(nv)
+                ops.append(["pub", pid, key, v, rng.choice([0, 0, 1, 2])])
+                pubs.add(pid)
+            st["rev"] += 2           # upper bound, only used to bound "stale"
+
         def takeover():
             # what "exclusive" is about: a second key registers a value that is already served, then goes away
             cand = [o[2] for o in ops if o[0] == "sub" and o[4] and o[3] == "api" and any(o[1] in l for l in members.values())]
@@ -712,6 +775,8 @@ class C13(Property):
             r = rng.random()
             if r < 0.12 and any(o[0] == "sub" and o[4] for o in ops):
                 takeover()
+            elif r < 0.20 and use_pub:
+                publish()
             elif r < 0.36:
                 mut()
             elif r < 0.50:
@@ -752,6 +817,8 @@ class C13(Property):
                 spied.discard(w)
             elif r < 0.94:
                 ops.append(["compact"])
+            elif use_pub:
+                publish()
             else:
                 mut()
         return {"kind": "cluster", "watchers": watchers, "ops": ops, "base": base, "eps": neps}
@@ -759,6 +826,7 @@ class C13(Property):
     @staticmethod
     def _cl_valid(case):
         spied, members, sids = set(), {}, set()
+        pubs, pids, ppaused = set(), set(), set()
         base = case.get("base") or 1
         paused, rev, store = False, base, {}
         nw = len(case["watchers"])
@@ -783,6 +851,24 @@ class C13(Property):
                 if not ws:
                     return False
                 members[ws[0]].remove(o[1])
+            elif n == "pub":
+                if o[1] in pids:
+                    return False
+                pids.add(o[1])
+                pubs.add(o[1])
+                rev += 1
+            elif n in ("unpub", "expire", "ppause", "presume"):
+                if o[1] not in pubs or (n != "unpub" and paused):
+                    return False
+                if (n == "presume") != (o[1] in ppaused) and n != "unpub":
+                    return False
+                if n == "unpub":
+                    pubs.discard(o[1])
+                    ppaused.discard(o[1])
+                elif n == "ppause":
+                    ppaused.add(o[1])
+                elif n == "presume":
+                    ppaused.discard(o[1])
             elif n == "pause":
                 if paused:
                     return False
@@ -804,7 +890,7 @@ class C13(Property):
             elif n in ("reconnect", "closewatch", "cancelwatch", "geterr"):
                 if not spied:
                     return False
-        return not paused
+        return not paused and not ppaused
 
     def _kobj(self, rng, rv, nip):
         subs = []
